@@ -664,3 +664,27 @@ def check_C02(ctx):
                   "path tokens and [TimingPoints] lines are compared with the models' predictions and the second decode with the predicted "
                   "result; whole bundled and generated maps are round-tripped and compared on the statement's field list (twice: stability); "
                   "non-trivial = distinct grammatical paths / line sequences / maps")
+
+
+# ----------------------------------------------------------------------------
+def check_C03(ctx):
+    thorough = ctx.tier == "thorough"
+    sany(ctx, "StrCodec")
+    cases = os.path.join(ctx.work, "strcodec.ndjson")
+    for f in ("meta", "audio", "bg", "colour"):
+        cfg = dict(spec="Spec", invariants=["Survives"], constants=dict(MaxLen="5" if thorough else "4", Field='"%s"' % f, Emit="TRUE"))
+        tlc(ctx, "StrCodec", "MC_StrCodec_%s" % f, cfg, workers=14, timeout=3000, cases_file=cases)
+    summ = harness(ctx, ["edits", "replay"], cases_file=cases, name="edits-replay", timeout=3600)
+    report_mismatches(ctx, summ, "an edited text field does not come back as StrCodec.tla predicts / another field changes")
+    summ = harness(ctx, ["edits", "relations", "--tier", ctx.tier], name="edits-rel", timeout=3600)
+    report_mismatches(ctx, summ, "an edited numeric / flag / list field does not survive encode -> decode, or changes another field")
+    ctx.assumptions += ["representable text per field as defined in StrCodec!Representable (metadata: any text without outer whitespace; "
+                        "file names: additionally no `//`, no backslash, and for the background no comma / outer quote; colour names: no colon)",
+                        "number formatting (shortest round-trip Display) assumed from the Rust standard library"]
+    return finish(ctx, "model_checking",
+                  "StrCodec.tla transcribes the string pipeline of every text field (writer line, reader trim, comment stripping, first-colon "
+                  "split, comma split, clean_filename) over an 8-symbol alphabet; TLC checks for every string up to the bound that a "
+                  "representable value survives and predicts what any other value comes back as; every string is applied as an edit to decoded "
+                  "maps and the real encode -> decode result compared with the prediction, all other preserved fields being unchanged; "
+                  "numeric, flag, enum, bookmark, colour and break edits (single and combined) are checked as a relation on generated maps; "
+                  "non-trivial = distinct representable (field, string) pairs / base maps")
